@@ -10,7 +10,7 @@ git -C /repo worktree add -q --detach $WT HEAD || exit 3
 cleanup() { git -C /repo worktree remove --force $WT 2>/dev/null; rm -rf /tmp/seedout_$$; }
 trap cleanup EXIT
 cp "$D/demo_test.go" $WT/$PKG/zz_demo_test.go
-TAGS=""; grep -q 'must be run with -tags purego' "$D/README.md" 2>/dev/null && TAGS="-tags purego"
+TAGS=""; grep -q "must be run with -tags purego" "$D/README.md" 2>/dev/null && TAGS="-tags purego"; grep -q "must be run with -race" "$D/README.md" 2>/dev/null && TAGS="$TAGS -race"
 RUN=$(grep -o 'func Test[A-Za-z0-9_]*' "$D/demo_test.go" | sed 's/func //' | paste -sd'|')
 ( cd $WT/$PKG && go test $TAGS -vet=off -count=1 -run "^($RUN)\$" . >/tmp/seedout_$$.orig 2>&1 ); ORIG=$?
 ( cd $WT && git apply "$D/patch.diff" ) || { echo "PATCH DOES NOT APPLY"; exit 3; }
